@@ -11,14 +11,16 @@ use crate::metric::ALL_METRICS;
 pub fn gen_case(seed: u64, p: &Profile) -> Case {
     let mut rng = StdRng::seed_from_u64(seed);
     let metric = ALL_METRICS[rng.gen_range(0..7)];
-    let dims = *[3usize, 16, 64, 130, 256].choose(&mut rng).unwrap();
+    // 1024 dimensions: every f32 item lives on LMDB overflow pages and spans two pages
+    let big = rng.gen_bool(0.08);
+    let dims = if big { 1024 } else { *[3usize, 16, 64, 130, 256].choose(&mut rng).unwrap() };
     let index: u16 = if rng.gen_bool(0.5) { 0 } else { rng.gen() };
     let mut model = Model::default();
     model.ix.push(IndexModel::new(index, metric, dims));
     let values = if rng.gen_bool(0.5) { Values::Grid } else { Values::Uniform };
     let big = p.max_items >= 3000;
     let counts: &[usize] = if big { &[1, 150, 199, 200, 201, 260, 450, 1000, 3000] } else { &[1, 150, 199, 200, 201, 260, 450, 1000] };
-    let n0 = *counts.choose(&mut rng).unwrap();
+    let n0 = if big { *[150usize, 201, 260, 450].choose(&mut rng).unwrap() } else { *counts.choose(&mut rng).unwrap() };
     let item_bytes = 1 + metric.header_size() + metric.vector_bytes(dims);
     let memories = |rng: &mut StdRng, n: usize| -> Option<usize> {
         match rng.gen_range(0..8) {
@@ -32,7 +34,7 @@ pub fn gen_case(seed: u64, p: &Profile) -> Case {
             _ => None,
         }
     };
-    let split_after = *[None, None, Some(1usize), Some(20), Some(250), Some(200), Some(300)].choose(&mut rng).unwrap();
+    let split_after = if big { *[Some(20usize), Some(50), Some(250)].choose(&mut rng).unwrap() } else { *[None, None, Some(1usize), Some(20), Some(250), Some(200), Some(300)].choose(&mut rng).unwrap() };
     // automatic tree counts grow with the dimension (hundreds of trees for 256 dims): keep them for small dims
     let n_trees = if dims <= 16 { *[None, Some(1usize), Some(3), Some(5)].choose(&mut rng).unwrap() } else { *[Some(1usize), Some(2), Some(3), Some(5)].choose(&mut rng).unwrap() };
     let mut ops = Vec::new();
